@@ -27,7 +27,9 @@ use crate::chunks::{
     RecursiveParticleIds, SkeletonData, SkeletonFileId, SkinFileIds, TextureAnimationChunk,
     TextureFileIds, WaterfallEffect,
 };
-use crate::common::{M2Array, M2Parse, read_array, read_bytes_checked, read_raw_bytes};
+use crate::common::{
+    M2Array, M2Parse, read_array, read_bytes_checked, read_raw_bytes, remaining_bytes,
+};
 use crate::error::{M2Error, Result};
 use crate::file_resolver::FileResolver;
 use crate::header::{M2_MAGIC_CHUNKED, M2_MAGIC_LEGACY, M2Header, M2ModelFlags};
@@ -2509,6 +2511,18 @@ impl M2Model {
                 Err(M2Error::Io(ref e)) if e.kind() == ErrorKind::UnexpectedEof => break,
                 Err(e) => return Err(e),
             };
+
+            // The chunk size comes from the file and is used below to size buffers,
+            // so it must not exceed the data that is actually left
+            let remaining = remaining_bytes(reader)?;
+            if header.size as u64 > remaining {
+                return Err(M2Error::ParseError(format!(
+                    "Chunk {} claims {} bytes but only {} bytes remain",
+                    header.magic_str(),
+                    header.size,
+                    remaining
+                )));
+            }
 
             chunks.push(header.clone());
 
